@@ -1,6 +1,6 @@
 (* Extraction of the executable model for the correspondence driver.
    Only ExtrOcamlBasic is used: Z, positive, N, nat stay the extracted inductives. *)
 From Coq Require Import Extraction ExtrOcamlBasic.
-From Matreex Require Import Model.Decode.
+From Matreex Require Import Model.Decode Model.KCases.
 Extraction Language OCaml.
-Extraction "model.ml" step_wire empty_pool cfg64 nrows ncols.
+Extraction "model.ml" step_wire empty_pool cfg64 nrows ncols kcase.
